@@ -154,6 +154,11 @@ type Interp struct {
 	trace        []string
 	inputs       []*term.Term
 	deadline     time.Time
+	poolThreads  int
+	poolGroups   int
+	poolJobs     []*poolJobLog
+	curJob       *poolJobLog
+	poolErf      *ssa.Function
 	marshalDepth int
 	unmarshalTop map[*Value]int
 }
@@ -1157,6 +1162,10 @@ func (in *Interp) runPath(fn *ssa.Function, args []Value, prefix []Decision, id 
 	in.inputs = nil
 	in.marshalDepth = 0
 	in.unmarshalTop = map[*Value]int{}
+	in.poolThreads = 0
+	in.poolGroups = 0
+	in.poolJobs = nil
+	in.curJob = nil
 	pr.ID = id
 	defer func() {
 		pr.Steps = in.steps
